@@ -22,6 +22,8 @@ TRUSTED_BASE = [
     "Coq 8.16.1 kernel (coqc); vm_compute used in finite-table proofs; no native_compute",
     "Print Assumptions output of every theorem in Props/<id>.v must be 'Closed under the global context' or a subset of the stdlib axioms named in DESIGN 2.9",
     "extraction with the stdlib modules ExtrOcamlBasic and ExtrOcamlZBigInt (Z/positive/N -> zarith 1.12 big integers) plus ONE Extract Constant of our own (Pos.ggcd -> zarith gcd; tools/build_driver.sh), OCaml 4.13 ocamlopt, /verif/ocaml/driver.ml line protocol; every run re-evaluates a sample of its own driver requests inside Coq with vm_compute and compares (extraction_crosscheck in coverage)",
+    "translators (where the property's check regenerates models from /repo): gen/py2coq.py + gen/signatures.json and the per-property gen/cXX_py2coq.py with the Python/numpy semantics they target (Model/CXX_PySem.v, C07_PySym.v, C08_NpSem.v) - fail-closed, their typing/abstraction tables are trusted; everything not translated is MODELLED by hand and tied by running model and implementation on the same inputs each run",
+    "thorough tier: coqchk -o over Props/<id> (independent re-check; axioms of the whole dependency cone recorded in coverage.coqchk)",
     "harness: case generators, exact float->rational conversion, comparators and tolerances in /verif/harness",
     "quara is MODELLED (hand-written Gallina, tied by running model and implementation on the same inputs each run); NumPy/SciPy/LAPACK are oracles",
     "import shim harness/shim/sitecustomize.py (scipy.linalg.kron := numpy.kron when missing)",
